@@ -165,10 +165,17 @@ def run_partition(ctx, mode, seq, cuts, with_handshake, case, stream=None, reent
                 break
     got = ep.proto.got
     ok = (not ep.crashes and len(got) == len(seq) and ep.proto.auth_calls == 1 and not ep.t.disconnecting)
+    raw_pieces_differ = None
     if ok:
-        for (kind, m), (raw, exp, b) in zip(got, seq):
+        for i_, ((kind, m), (raw, exp, b)) in enumerate(zip(got, seq)):
             if kind != HANDLER_OF[exp['type']] or got_key(kind, m) != exp_key(exp, b):
                 ok = False
+                break
+            # identical content includes the raw pieces the delivered message carries (the built-in bus passes rawBody on)
+            pieces_ = [getattr(m, a_, None) for a_ in ('rawHeader', 'rawPadding', 'rawBody')]
+            if None not in pieces_ and b''.join(pieces_) != raw:
+                ok = False
+                raw_pieces_differ = (i_, [len(p_) for p_ in pieces_], len(raw))
                 break
     if ok:
         if len(pieces) >= 2 or len(seq) >= 2:
@@ -190,6 +197,9 @@ def run_partition(ctx, mode, seq, cuts, with_handshake, case, stream=None, reent
         if d:
             diffs.append((i, d[:3]))
     w['diffs'] = diffs[:5]
+    if raw_pieces_differ:
+        w['diffs'].append(('raw-pieces', 'message %d: rawHeader+rawPadding+rawBody have lengths %r, the message sent has %d '
+                           'bytes' % raw_pieces_differ))
     key, what = classify(ep, w, seq, pieces, hs if with_handshake else b'')
     ctx.report(key, what, w, case)
     return False
